@@ -470,9 +470,15 @@ def rule_totals(rep, repo):
       "l2": {"class_name": "QActivation",
              "energy": {"inputs": S("a2"), "outputs": S("b2"),
                         "parameters": S("c2"), "op_cost": S("d2")}},
+      "l3": {"class_name": "QBatchNormalization",
+             "energy": {"inputs": S("a3"), "outputs": S("b3"),
+                        "parameters": S("c3"), "op_cost": S("d3")}},
       "total_cost": S("T"),
   }
-  setting = {"QDense": ["inputs", "op_cost"], "default": ["outputs"]}
+  # a class rule that is present but empty excludes the class (it must not
+  # fall through to "default")
+  setting = {"QDense": ["inputs", "op_cost"], "QBatchNormalization": [],
+             "default": ["outputs"]}
   for mname, want in (("extract_energy_sum", N("a1") + N("d1") + N("b2")),):
     m = qt.methods.get(mname)
     munit = "%s::QTools.%s" % (rq.relpath, mname)
@@ -504,10 +510,15 @@ def rule_totals(rep, repo):
                        [setting, energy_dict], {})
       t1 = fw(r["l1"]["total"].term)
       t2 = fw(r["l2"]["total"].term)
+      t3v = r["l3"]["total"] if "l3" in r else 0
+      t3 = fw(t3v.term) if isinstance(t3v, Tensor) else NF.const(F(t3v))
       rep.check(t1 == N("a1") + N("d1") and t2 == N("b2") and
+                t3 == NF.const(0) and
                 "total_cost" not in r, "R4", munit,
                 "profile-total!=selected-entries",
-                "per-layer totals are %s / %s" % (show(t1), show(t2)),
+                "per-layer totals are %s / %s / %s (the third layer's class "
+                "is excluded by an empty rule)" % (show(t1), show(t2),
+                                                   show(t3)),
                 loc=rq.loc(m))
     except (PyRaise, KeyError, AttributeError, TypeError) as e:
       rep.fail("R4", munit, "raises", "extract_energy_profile: %s" % e,
